@@ -1173,9 +1173,11 @@ class CompositeSubsetState(SubsetState):
 
     @property
     def attributes(self):
-        att = self.state1.attributes
+        # (make a new tuple rather than extending whatever sequence the first
+        # state returns in place - it can be a dataset's own list of pixel ids)
+        att = tuple(self.state1.attributes)
         if self.state2 is not None:
-            att += self.state2.attributes
+            att += tuple(self.state2.attributes)
         return tuple(sorted(set(att)))
 
     @memoize
@@ -1256,9 +1258,9 @@ class MultiOrState(SubsetState):
 
     @property
     def attributes(self):
-        att = self.states[0].attributes
+        att = tuple(self.states[0].attributes)
         for state in self.states[1:]:
-            att += state.attributes
+            att += tuple(state.attributes)
         return tuple(sorted(set(att)))
 
     @memoize
